@@ -732,7 +732,7 @@ Proof.
   intros Hk u t. destruct u as [s|e a|s|m f args].
   1-3: rewrite arg_kind_noncall by (assumption || (intros; discriminate)); lia.
   unfold on_result_found_upd.
-  destruct k as [info| |name v|safe|v safe|lim| | | | | | |]; try discriminate Hk; cbn [on_result_found update_arg_target with_args args_of add_arg_to_call delta_kind].
+  destruct k as [info| |name v|safe|v safe|lim| | | | | | | |]; try discriminate Hk; cbn [on_result_found update_arg_target with_args args_of add_arg_to_call delta_kind].
   - rewrite !toks_call, !cnt_app. pose proof (replace_args_count_le args info t). lia.
   - rewrite !toks_call, !cnt_app. pose proof (replace_args_count_le args (choose_new_args args) t).
     pose proof (cookie_delta_le args t). lia.
@@ -866,9 +866,9 @@ Lemma single_call_count_ge k : lower_kind k = true -> forall u t,
   cnt (toks u) t <= cnt (toks (on_result_found_upd k u)) t + cnt (lost_kind k (args_of u)) t.
 Proof.
   intros Hk u t. destruct u as [s|e a|s|m f args].
-  1-3: rewrite arg_kind_noncall by ((destruct k as [| | | |[]| | | | | | | |]; try discriminate Hk; reflexivity) || (intros; discriminate)); lia.
+  1-3: rewrite arg_kind_noncall by ((destruct k as [| | | |[]| | | | | | | | |]; try discriminate Hk; reflexivity) || (intros; discriminate)); lia.
   unfold on_result_found_upd.
-  destruct k as [info| |name v|safe|[] safe|lim| | | | | | |]; try discriminate Hk;
+  destruct k as [info| |name v|safe|[] safe|lim| | | | | | | |]; try discriminate Hk;
     cbn [on_result_found update_arg_target with_args args_of add_arg_to_call lost_kind].
   - rewrite !toks_call, !cnt_app. pose proof (replace_args_count_ge args info t). lia.
   - rewrite !toks_call, !cnt_app. pose proof (replace_args_count_ge args (choose_new_args args) t).
@@ -918,7 +918,7 @@ Qed.
 Lemma call_edit_documented k : documented_kind k = true -> forall u, on_result_found_upd k u = spec_call k u.
 Proof.
   intros Hk u. unfold on_result_found_upd.
-  destruct k as [info| |name v|safe|[] safe|lim| | | | | | |]; try discriminate Hk;
+  destruct k as [info| |name v|safe|[] safe|lim| | | | | | | |]; try discriminate Hk;
     cbn [on_result_found spec_call update_arg_target add_arg_to_call].
   - rewrite (replace_args_is_spec _ info (nodupb_NoDup _ Hk)). reflexivity.
   - rewrite (replace_args_is_spec _ _ (cookie_names_nodup (args_of u))). reflexivity.
@@ -933,4 +933,64 @@ Proof.
     assert (E : map (fun a => set_value a (rw_upd k (value a))) args = map (fun a => set_value a (rw_spec k (value a))) args).
     { apply map_ext_in. intros a Hin. rewrite Forall_forall in IHa. rewrite (IHa a Hin). reflexivity. }
     rewrite E. destruct m; [apply call_edit_documented; exact Hk|reflexivity].
+Qed.
+
+(** * positional_to_keyword *)
+Lemma p2k_carries_total m : forall args seen, exists r, positional_to_keyword P2kCarriesOver seen args m = Some r.
+Proof.
+  intros args. revert m. induction args as [|a l IH]; intros m seen; [exists []; reflexivity|].
+  simpl. destruct (IH (tl m) (seen || negb (N.eqb (star a) 0))) as [r' Hr]. rewrite Hr.
+  destruct (kw a); [eexists; reflexivity|]. destruct m as [|[k|] m']; try (eexists; reflexivity).
+  destruct (seen || negb (N.eqb (star a) 0)); eexists; reflexivity.
+Qed.
+(** only keywords change: stars, layout tags, values and the order of all arguments are kept *)
+Definition strip_kw (a : arg) : N * N * N * expr := (star a, sp a, lay a, value a).
+Lemma p2k_only_keywords v : forall args m seen r, positional_to_keyword v seen args m = Some r ->
+  map strip_kw r = map strip_kw args.
+Proof.
+  induction args as [|a l IH]; intros m seen r H; [inversion H; reflexivity|].
+  simpl in H. destruct (positional_to_keyword v (seen || negb (N.eqb (star a) 0)) l (tl m)) as [r'|] eqn:Er.
+  - pose proof (IH _ _ _ Er) as E.
+    destruct (kw a); [inversion H; subst; simpl; rewrite E; reflexivity|].
+    destruct v; destruct m as [|[k|] m']; try discriminate H;
+      try (inversion H; subst; simpl; rewrite E; reflexivity).
+    + destruct (negb (N.eqb (star a) 0)); [discriminate H|]. inversion H; subst. simpl. rewrite E. reflexivity.
+    + destruct (seen || negb (N.eqb (star a) 0)); inversion H; subst; simpl; rewrite E; reflexivity.
+  - destruct (kw a); [discriminate H|]. destruct v; destruct m as [|[k|] m']; try discriminate H.
+    + destruct (negb (N.eqb (star a) 0)); discriminate H.
+    + destruct (seen || negb (N.eqb (star a) 0)); discriminate H.
+Qed.
+(** carries-over: once a starred argument has been seen, everything is returned as it was *)
+Lemma p2k_carries_after_star : forall args m, positional_to_keyword P2kCarriesOver true args m = Some args.
+Proof.
+  induction args as [|a l IH]; intros m; [reflexivity|].
+  simpl. rewrite IH. destruct (kw a); [reflexivity|]. destruct m as [|[k|] m']; reflexivity.
+Qed.
+(** keyword arguments are never touched, whatever the variant *)
+Lemma p2k_keeps_keyword_args v : forall args m seen r, positional_to_keyword v seen args m = Some r ->
+  forall i a, nth_error args i = Some a -> kw a <> None -> nth_error r i = Some a.
+Proof.
+  induction args as [|a l IH]; intros m seen r H i b Hb Hk; [destruct i; discriminate|].
+  simpl in H. destruct (positional_to_keyword v (seen || negb (N.eqb (star a) 0)) l (tl m)) as [r'|] eqn:Er.
+  - destruct i as [|i]; simpl in Hb.
+    + inversion Hb; subst. destruct (kw b); [inversion H; reflexivity|contradiction].
+    + assert (T : exists x, r = x :: r').
+      { destruct (kw a); [inversion H; eexists; reflexivity|].
+        destruct v; destruct m as [|[k|] m']; try discriminate H; try (inversion H; eexists; reflexivity).
+        - destruct (negb (N.eqb (star a) 0)); [discriminate H|inversion H; eexists; reflexivity].
+        - destruct (seen || negb (N.eqb (star a) 0)); inversion H; eexists; reflexivity. }
+      destruct T as [x ->]. simpl. exact (IH _ _ _ Er i b Hb Hk).
+  - destruct (kw a); [discriminate H|]. destruct v; destruct m as [|[k|] m']; try discriminate H.
+    + destruct (negb (N.eqb (star a) 0)); discriminate H.
+    + destruct (seen || negb (N.eqb (star a) 0)); discriminate H.
+Qed.
+(** as written: whenever it does not raise, it is the documented (carries-over) result *)
+Lemma p2k_raises_agrees : forall args m seen r, positional_to_keyword P2kRaisesOnStar seen args m = Some r ->
+  seen = false -> forallb (fun a => N.eqb (star a) 0) args = true -> positional_to_keyword P2kCarriesOver seen args m = Some r.
+Proof.
+  induction args as [|a l IH]; intros m seen r H Hs Hall; [exact H|].
+  simpl in Hall. apply andb_true_iff in Hall. destruct Hall as [Ha Hl]. subst seen. simpl in *. rewrite Ha in *. simpl in *.
+  destruct (positional_to_keyword P2kRaisesOnStar false l (tl m)) as [r'|] eqn:Er.
+  - rewrite (IH (tl m) false r' Er eq_refl Hl). destruct (kw a); [exact H|]. destruct m as [|[k|] m']; try discriminate; exact H.
+  - destruct (kw a); [discriminate|]. destruct m as [|[k|] m']; discriminate.
 Qed.
